@@ -574,6 +574,44 @@ def run(prog, rep):
                               f'`{var}` is created anew in every iteration of the loop over the children and read after the loop: only the '
                               f'last child survives, a parent with two or more children of that kind comes back with one')
 
+    # R13: a deep reader looks at every kind of child whatever it found for the other kinds
+    rep.rule('R13', 'deep readers reach the listing of every child kind on every path that returns a sliver', floor=6)
+    CHILD_KEYS = ('components', 'network_services', 'interfaces')
+    for mname, fn0 in sorted(apg.methods.items()):
+        if not (mname.startswith('build_deep_') or mname == 'interface_sliver_from_graph_properties_dict'):
+            continue
+        fn13 = inline(prog, apg, fn0, exclude=tuple(n_ for n_ in apg.methods if n_.startswith('build_deep_') or n_.endswith('_from_graph_properties_dict')))
+        listings = []
+        for n in walk_no_nested(fn13):
+            if isinstance(n, ast.Call) and call_name(n) in ('get_first_neighbor', 'get_all_child_connection_points', 'get_all_ns_or_link_connection_points'):
+                listings.append(n)
+            elif isinstance(n, ast.Call) and isinstance(n.func, ast.Attribute) and n.func.attr == 'get' and n.args and isinstance(n.args[0], ast.Constant) and \
+                    n.args[0].value in CHILD_KEYS:
+                listings.append(n)
+            elif isinstance(n, ast.Subscript) and isinstance(n.ctx, ast.Load) and isinstance(n.slice, ast.Constant) and n.slice.value in CHILD_KEYS and \
+                    not any(isinstance(x, ast.Call) and isinstance(x.func, ast.Attribute) and x.func.attr == 'get' and x.args and isinstance(x.args[0], ast.Constant) and
+                            x.args[0].value == n.slice.value for x in walk_no_nested(fn13)):
+                listings.append(n)
+        if not listings:
+            continue
+        # what each listing's result is called
+        result_of = {}
+        for a_ in walk_no_nested(fn13):
+            if isinstance(a_, ast.Assign) and len(a_.targets) == 1 and isinstance(a_.targets[0], ast.Name):
+                for l_ in listings:
+                    if any(x is l_ for x in ast.walk(a_.value)):
+                        result_of[a_.targets[0].id] = l_
+        for l_ in listings:
+            _, conds13 = _enclosing(l_, fn13)
+            others = {nm for nm, lst in result_of.items() if lst is not l_}
+            dep = sorted({x.id for c_ in conds13 if getattr(c_, '_guard', None) != 'Raise' for x in ast.walk(c_) if isinstance(x, ast.Name) and x.id in others})
+            rep.instance('R13', f'{mname}: {norm(l_, 70)} reached whatever the other listings returned: {not dep}')
+            if dep:
+                rep.violation('R13', loc(apg.module, l_), f'ABCPropertyGraph.{mname}', f'{norm(l_, 70)} only when {dep} allow it',
+                              f'{mname} looks for this kind of child only on paths decided by what it found for another kind ({dep}: an early '
+                              f'return, or a listing nested under the test on the other kind): an element that has children of this kind but '
+                              f'none of the other comes back without them')
+
     # R6 deep dictionary
     s2d = apg.methods.get('sliver_to_dict')
     if s2d is None:
@@ -585,17 +623,49 @@ def run(prog, rep):
         raise AnalysisError('sliver_to_dict: returned dictionary not found')
     dvar = rets[-1]
     blds = builders(s2d)
-    for n in ast.walk(s2d):
-        if isinstance(n, ast.If):
-            tnames = [x.id for x in ast.walk(n.test) if isinstance(x, ast.Name) and x.id.endswith('Sliver')]
-            if not tnames:
-                continue
+    all_types = sorted({x.id for x in ast.walk(s2d) if isinstance(x, ast.Name) and x.id.endswith('Sliver') and x.id != 'BaseSliver'})
+
+    def _type_truth(c, T):
+        """truth of a path condition under "the sliver is exactly a T": True / False, None = does not depend on the type"""
+        if isinstance(c, ast.UnaryOp) and isinstance(c.op, ast.Not):
+            v = _type_truth(c.operand, T)
+            return None if v is None else not v
+        if isinstance(c, ast.BoolOp):
+            vs = [_type_truth(v, T) for v in c.values]
+            if isinstance(c.op, ast.And):
+                return False if any(v is False for v in vs) else (True if all(v is True for v in vs) else None)
+            return True if any(v is True for v in vs) else (False if all(v is False for v in vs) else None)
+        if isinstance(c, ast.Compare) and len(c.ops) == 1:
+            l, r = c.left, c.comparators[0]
+            if isinstance(r, ast.Call) and call_name(r) == 'type' and r.args and not isinstance(c.ops[0], (ast.In, ast.NotIn)):
+                l, r = r, l
+            if isinstance(l, ast.Call) and call_name(l) == 'type' and l.args:
+                names = [x.id for x in ast.walk(r) if isinstance(x, ast.Name) and x.id.endswith('Sliver')]
+                if names:
+                    if isinstance(c.ops[0], (ast.Eq, ast.Is, ast.In)):
+                        return T in names
+                    if isinstance(c.ops[0], (ast.NotEq, ast.IsNot, ast.NotIn)):
+                        return T not in names
+        if isinstance(c, ast.Call) and call_name(c) == 'isinstance' and len(c.args) == 2:
+            names = [x.id for x in ast.walk(c.args[1]) if isinstance(x, ast.Name) and x.id.endswith('Sliver')]
+            if names:
+                return T in names
+        return None
+
+    key_writes = [a for a in ast.walk(s2d) if isinstance(a, ast.Assign) and isinstance(a.targets[0], ast.Subscript) and
+                  isinstance(a.targets[0].value, ast.Name) and a.targets[0].value.id == dvar and isinstance(a.targets[0].slice, ast.Constant)]
+    for a in key_writes:
+        _, conds_ = _enclosing(a, s2d)
+        tnames = [T for T in all_types if all(_type_truth(canon(c_), T) is not False for c_ in conds_) and
+                  any(_type_truth(canon(c_), T) is True for c_ in conds_)]
+        if not tnames:
+            continue
+        if True:
+            n = s2d
             keys = set()
-            for st in n.body:
-                for a in ast.walk(st):
-                    if isinstance(a, ast.Assign) and isinstance(a.targets[0], ast.Subscript) and \
-                            isinstance(a.targets[0].value, ast.Name) and a.targets[0].value.id == dvar and \
-                            isinstance(a.targets[0].slice, ast.Constant):
+            if True:
+                if True:
+                    if True:
                         keys.add(a.targets[0].slice.value)
                         # children must be converted recursively: every element put under the key is sliver_to_dict(child)
                         v = a.value
